@@ -68,6 +68,12 @@ CHECKS.update({
    ref="DESIGN.md §3.7, §4 C09", note="Granularity is one shared-cache operation (not individual lock acquisitions). In reduced configurations only operations on keys touched by two tasks are choice points (classification iterated to a fixpoint; validated against the all-points mode on the small configurations). Determinism of the harness is checked by replaying the default schedule twice per configuration."),
 })
 
+CHECKS.update({
+ "C17": dict(tech="exhaustive enumeration of register / unregister operation histories against a multiset-of-positions model",
+   text="From five seeds (true recurrence, triangulation, castling-right loss, en-passant opportunity in both colours) every history over the alphabet {quiet menu move + register, unregister + take back} up to length 9 (11 thorough) is executed on one real board; returned count, reported count and draw verdict are compared with a multiset of full positions after every operation; every menu-move game containing a third occurrence is also played through the Game API and must be reported drawn.",
+   ref="DESIGN.md §4 C17", note="Positions are registered after the move and the turn toggle. Multiplicities above 3 are not judged."),
+})
+
 NOT_YET = {}
 
 def main():
